@@ -19,9 +19,9 @@ func init() {
 }
 
 const (
-	pkgSutils  = "pkg/segment/utils"
-	pkgDtu     = "pkg/common/dtypeutils"
-	pkgMetaUtl = "pkg/segment/query/metadata/metautils"
+	pkgSutils   = "pkg/segment/utils"
+	pkgDtu      = "pkg/common/dtypeutils"
+	pkgMetaUtl  = "pkg/segment/query/metadata/metautils"
 	pkgSegread2 = "pkg/segment/reader/segread"
 )
 
@@ -715,9 +715,9 @@ func usesInHeaderOrBody(l *core.Loop, v ssa.Value) bool {
 // subset, otherwise the C03 subset (full enclosure).
 func checkTimePredicates(c *core.Ctx, r *core.Report, eq core.EqualityCalls, inRangeAndOverlap bool) {
 	type pred struct {
-		typ, method string
-		spec        func(rank map[string]int, recv string, params []string) bool
-		constraint  func(rank map[string]int, recv string, params []string) bool
+		typ, method  string
+		spec         func(rank map[string]int, recv string, params []string) bool
+		constraint   func(rank map[string]int, recv string, params []string) bool
 		startF, endF string
 	}
 	inRange := func(rank map[string]int, s, e string, ps []string) bool {
@@ -731,37 +731,37 @@ func checkTimePredicates(c *core.Ctx, r *core.Report, eq core.EqualityCalls, inR
 	}
 	var list []struct {
 		typ, method, sf, ef string
-		nparams            int
-		spec               func(map[string]int, string, string, []string) bool
+		nparams             int
+		spec                func(map[string]int, string, string, []string) bool
 	}
 	if inRangeAndOverlap {
 		list = append(list,
 			struct {
 				typ, method, sf, ef string
-				nparams            int
-				spec               func(map[string]int, string, string, []string) bool
+				nparams             int
+				spec                func(map[string]int, string, string, []string) bool
 			}{"TimeRange", "CheckInRange", "StartEpochMs", "EndEpochMs", 1, inRange},
 			struct {
 				typ, method, sf, ef string
-				nparams            int
-				spec               func(map[string]int, string, string, []string) bool
+				nparams             int
+				spec                func(map[string]int, string, string, []string) bool
 			}{"MetricsTimeRange", "CheckInRange", "StartEpochSec", "EndEpochSec", 1, inRange},
 			struct {
 				typ, method, sf, ef string
-				nparams            int
-				spec               func(map[string]int, string, string, []string) bool
+				nparams             int
+				spec                func(map[string]int, string, string, []string) bool
 			}{"TimeRange", "CheckRangeOverLap", "StartEpochMs", "EndEpochMs", 2, overlap},
 			struct {
 				typ, method, sf, ef string
-				nparams            int
-				spec               func(map[string]int, string, string, []string) bool
+				nparams             int
+				spec                func(map[string]int, string, string, []string) bool
 			}{"MetricsTimeRange", "CheckRangeOverLap", "StartEpochSec", "EndEpochSec", 2, overlap},
 		)
 	} else {
 		list = append(list, struct {
 			typ, method, sf, ef string
-			nparams            int
-			spec               func(map[string]int, string, string, []string) bool
+			nparams             int
+			spec                func(map[string]int, string, string, []string) bool
 		}{"TimeRange", "AreTimesFullyEnclosed", "StartEpochMs", "EndEpochMs", 2, enclosed})
 	}
 	for _, p := range list {
@@ -881,7 +881,9 @@ func checkC03(c *core.Ctx, r *core.Report) {
 
 	// ---------------------------------------------------------------- (7) a persistent query's "matched something in this segment" flag accumulates over blocks
 	{
-		fn := c.Fn(pkgWriter, "SegStore.AppendWipToSegfile")
+		// every store into the flag map, in whichever function of the repository it is made (the flush
+		// path or a helper extracted from it)
+		c.Fn(pkgWriter, "SegStore.AppendWipToSegfile")
 		flagF := c.Field(pkgWriter, "SegStore.pqNonEmptyResults")
 		isFlagMap := func(v ssa.Value) bool {
 			ld, ok := v.(*ssa.UnOp)
@@ -892,46 +894,50 @@ func checkC03(c *core.Ctx, r *core.Report) {
 			return ok && core.FieldOfAddr(fa) == flagF
 		}
 		n := 0
-		for _, b := range fn.Blocks {
-			for _, in := range b.Instrs {
-				mu, ok := in.(*ssa.MapUpdate)
-				if !ok || !isFlagMap(mu.Map) {
-					continue
-				}
-				n++
-				// the stored value is true, or depends on the entry's previous value
-				var dependsOnPrev func(v ssa.Value, depth int) bool
-				dependsOnPrev = func(v ssa.Value, depth int) bool {
-					if depth > 5 || v == nil {
+		perFn := map[string]int{}
+		for _, fn := range c.RepoFunctions() {
+			for _, b := range fn.Blocks {
+				for _, in := range b.Instrs {
+					mu, ok := in.(*ssa.MapUpdate)
+					if !ok || !isFlagMap(mu.Map) {
+						continue
+					}
+					n++
+					perFn[core.FnName(fn)]++
+					// the stored value is true, or depends on the entry's previous value
+					var dependsOnPrev func(v ssa.Value, depth int) bool
+					dependsOnPrev = func(v ssa.Value, depth int) bool {
+						if depth > 5 || v == nil {
+							return false
+						}
+						switch x := v.(type) {
+						case *ssa.Const:
+							return x.Value != nil && x.Value.String() == "true" && depth == 0
+						case *ssa.Lookup:
+							return isFlagMap(x.X)
+						case *ssa.Extract:
+							return dependsOnPrev(x.Tuple, depth+1)
+						case *ssa.BinOp:
+							return dependsOnPrev(x.X, depth+1) || dependsOnPrev(x.Y, depth+1)
+						case *ssa.Phi:
+							// a || b : phi [true (where a held), b]; the branch is on a
+							for _, p := range x.Block().Preds {
+								if ifi, ok := core.LastIf(p); ok && dependsOnPrev(ifi.Cond, depth+1) {
+									return true
+								}
+							}
+							for _, e := range x.Edges {
+								if _, isK := e.(*ssa.Const); !isK && dependsOnPrev(e, depth+1) {
+									return true
+								}
+							}
+						}
 						return false
 					}
-					switch x := v.(type) {
-					case *ssa.Const:
-						return x.Value != nil && x.Value.String() == "true" && depth == 0
-					case *ssa.Lookup:
-						return isFlagMap(x.X)
-					case *ssa.Extract:
-						return dependsOnPrev(x.Tuple, depth+1)
-					case *ssa.BinOp:
-						return dependsOnPrev(x.X, depth+1) || dependsOnPrev(x.Y, depth+1)
-					case *ssa.Phi:
-						// a || b : phi [true (where a held), b]; the branch is on a
-						for _, p := range x.Block().Preds {
-							if ifi, ok := core.LastIf(p); ok && dependsOnPrev(ifi.Cond, depth+1) {
-								return true
-							}
-						}
-						for _, e := range x.Edges {
-							if _, isK := e.(*ssa.Const); !isK && dependsOnPrev(e, depth+1) {
-								return true
-							}
-						}
-					}
-					return false
+					r.Check(dependsOnPrev(mu.Value, 0), "LIVE", fmt.Sprintf("%s:pqNonEmptyResults-update#%d-accumulates-over-blocks", core.FnName(fn), perFn[core.FnName(fn)]), c.Pos(mu.Pos()),
+						"the flag is or-ed with its previous value (or set to true)",
+						"the per-segment flag `this persistent query matched something` is overwritten with the result of the block being flushed: a segment whose last block has no match is recorded as empty for the query, its result file is deleted at rotation, and the aggregation path skips the segment although earlier blocks matched")
 				}
-				r.Check(dependsOnPrev(mu.Value, 0), "LIVE", fmt.Sprintf("writer.SegStore.AppendWipToSegfile:pqNonEmptyResults-update#%d-accumulates-over-blocks", n), c.Pos(mu.Pos()),
-					"the flag is or-ed with its previous value (or set to true)",
-					"the per-segment flag `this persistent query matched something` is overwritten with the result of the block being flushed: a segment whose last block has no match is recorded as empty for the query, its result file is deleted at rotation, and the aggregation path skips the segment although earlier blocks matched")
 			}
 		}
 		r.Floor("LIVE", "updates of the persistent-query non-empty flag", n, 1)
